@@ -8,6 +8,7 @@ import (
 	"compress/gzip"
 	"encoding/json"
 	"errors"
+	"github.com/fluhus/gostuff/aio"
 	"io"
 	"math/rand"
 	"os"
@@ -137,19 +138,24 @@ func (w *limitWriter) Write(p []byte) (int, error) {
 // interleavedItems: another reader is first run to its end; then a reader over `a` and a reader over `other` advance in
 // lockstep (one item each, alternately), the way paired files are consumed. Returns what the reader over `a` delivered.
 func interleavedItems(fd *formatDef, a, other []byte) (items []gItem, capped, panicked bool) {
+	return interleavedWith(fd, func() io.Reader { return bytes.NewReader(a) }, other)
+}
+
+// interleavedWith: the same with any stream (a failing one, say) in the place of `a`
+func interleavedWith(fd *formatDef, mkA func() io.Reader, other []byte) (items []gItem, capped, panicked bool) {
 	collect(func(v func(gItem) bool) (int, bool) { return fd.reader(bytes.NewReader(other), v) })
 	type step struct {
 		it   gItem
 		done bool
 	}
-	start := func(data []byte) (chan step, chan bool, *bool) {
+	start := func(mk func() io.Reader) (chan step, chan bool, *bool) {
 		out, goOn, p := make(chan step), make(chan bool), new(bool)
 		go func() {
 			if !<-goOn {
 				out <- step{done: true}
 				return
 			}
-			_, *p = fd.reader(bytes.NewReader(data), func(it gItem) bool {
+			_, *p = fd.reader(mk(), func(it gItem) bool {
 				out <- step{it: it}
 				return <-goOn
 			})
@@ -157,8 +163,8 @@ func interleavedItems(fd *formatDef, a, other []byte) (items []gItem, capped, pa
 		}()
 		return out, goOn, p
 	}
-	oa, ga, pa := start(a)
-	ob, gb, pb := start(other)
+	oa, ga, pa := start(mkA)
+	ob, gb, pb := start(func() io.Reader { return bytes.NewReader(other) })
 	items = []gItem{}
 	doneA, doneB := false, false
 	for !doneA || !doneB {
@@ -313,6 +319,8 @@ func deliveryDrive(args []string) error {
 			}
 			emit("cfg", "file-plain", func(v func(gItem) bool) (int, bool) { return fd.file(plain, v) })
 			emit("cfg", "file-gz", func(v func(gItem) bool) (int, bool) { return fd.file(gz, v) })
+			emit("cfg", "file-plain-iterator-ranged-twice", func(v func(gItem) bool) (int, bool) { return fd.file2(plain, v) })
+			emit("cfg", "file-gz-iterator-ranged-twice", func(v func(gItem) bool) (int, bool) { return fd.file2(gz, v) })
 			// beyond the listed property: the other suffix the opener decompresses and that can be produced offline (.zst)
 			zst := filepath.Join(tmp, "in"+strconv.Itoa(sid)+".txt.zst")
 			zb2 := &bytes.Buffer{}
@@ -327,6 +335,33 @@ func deliveryDrive(args []string) error {
 			}
 			if ii == 0 {
 				emit("missing", "file-missing", func(v func(gItem) bool) (int, bool) { return fd.file(filepath.Join(tmp, "nope", "missing.txt"), v) })
+			}
+			// files that open and then fail to read: a gzip file cut in the middle / just before its trailer, a directory. File must
+			// deliver what Reader delivers on the stream the opener hands out (this pair of events comes last: it has its own reference)
+			if ii < 6 && len(in.Data) > 0 {
+				for ci, cut := range []int{zb.Len() / 2, zb.Len() - 5} {
+					if cut <= 10 {
+						continue
+					}
+					tgz := filepath.Join(tmp, "cut"+strconv.Itoa(sid)+"_"+strconv.Itoa(ci)+".txt.gz")
+					if err := os.WriteFile(tgz, zb.Bytes()[:cut], 0o644); err != nil {
+						return err
+					}
+					emit("base", "reader-over-opened-truncated-gz", func(v func(gItem) bool) (int, bool) {
+						f, err := aio.Open(tgz)
+						if err != nil {
+							v(gErr)
+							return 0, false
+						}
+						defer f.Close()
+						return fd.reader(f, v)
+					})
+					emit("cfg", "file-truncated-gz", func(v func(gItem) bool) (int, bool) { return fd.file(tgz, v) })
+					os.Remove(tgz)
+				}
+			}
+			if ii == 1 {
+				emit("missing", "file-is-a-directory", func(v func(gItem) bool) (int, bool) { return fd.file(tmp, v) })
 			}
 			os.Remove(plain)
 			os.Remove(gz)
@@ -371,6 +406,11 @@ func faultDrive(args []string) error {
 	if err != nil {
 		return err
 	}
+	ftmp, err := os.MkdirTemp(".", "files")
+	if err != nil {
+		return err
+	}
+	defer os.RemoveAll(ftmp)
 	sid := 0
 	for fi, fd := range formatDefs {
 		ins := crossInputs(fd.name, int64(7000+100*fi), 3*nIn, 0)
@@ -400,6 +440,47 @@ func faultDrive(args []string) error {
 			tw.emit(crossEvent{Sid: sid, Fmt: fd.name, Op: "clean", Cfg: "mem", WF: true, Ids: tab.ids(clean), Capped: capped, Panic: panicked,
 				Input: ints(in.Data[:min(len(in.Data), 300)])})
 			limit := len(clean) + 64
+			if in.WellFormed && len(in.Data) > 40 && !long { // the same law for File on a gzip copy cut in the middle / before its trailer
+				zb := &bytes.Buffer{}
+				zw := gzip.NewWriter(zb)
+				zw.Write(in.Data)
+				zw.Close()
+				for ci, cut := range []int{zb.Len() / 2, zb.Len() - 5, zb.Len() - 1} {
+					path := filepath.Join(ftmp, "f"+strconv.Itoa(sid)+"_"+strconv.Itoa(ci)+".gz")
+					os.WriteFile(path, zb.Bytes()[:cut], 0o644)
+					items := []gItem{}
+					unbounded := false
+					_, p := fd.file(path, func(it gItem) bool {
+						items = append(items, it)
+						if len(items) >= limit {
+							unbounded = true
+							return false
+						}
+						return true
+					})
+					os.Remove(path)
+					tw.emit(crossEvent{Sid: sid, Fmt: fd.name, Op: "fault", Cfg: "file-truncated-gz", WF: true, Ids: tab.ids(items), Capped: unbounded,
+						Panic: p, K: cut, Mode: "file", RS: 0, Input: []int{}})
+				}
+			}
+			if !long { // the same faults while a second reader (over the whole input) is alive and advances in lockstep
+				n := len(in.Data)
+				for _, k := range []int{0, 1, n / 3, n / 2, n - 1, n} {
+					for _, forever := range []bool{false, true} {
+						if k < 0 || k > n {
+							continue
+						}
+						k, forever := k, forever
+						items, capped, p := interleavedWith(&fd, func() io.Reader { return &faultReader{data: in.Data, at: k, rs: 4096, forever: forever} }, in.Data)
+						mode := "once"
+						if forever {
+							mode = "forever"
+						}
+						tw.emit(crossEvent{Sid: sid, Fmt: fd.name, Op: "fault", Cfg: "fault-with-another-reader-alive", WF: true, Ids: tab.ids(items),
+							Capped: capped, Panic: p, K: k, Mode: mode, RS: 4096, Input: []int{}})
+					}
+				}
+			}
 			for k := 0; k <= len(in.Data); k++ {
 				if n := len(in.Data); long && !(k < 40 || k > n-40 || k%509 == 0 || (k+1)%4096 < 3 || k%4096 == 2222) {
 					continue
@@ -628,6 +709,16 @@ func stopDrive(args []string) error {
 			}
 			targets = append(targets, stopTarget{name: fd.name + "/File", errLast: errLast,
 				run: func(v func(gItem) bool) (int, bool) { return fd.file(path, v) }})
+			if ii < 3 && len(in.Data) > 40 { // a file that opens and then fails to read: a gzip copy cut in the middle
+				zb := &bytes.Buffer{}
+				zw := gzip.NewWriter(zb)
+				zw.Write(in.Data)
+				zw.Close()
+				cut := filepath.Join(tmp, fd.name+strconv.Itoa(ii)+".cut.gz")
+				os.WriteFile(cut, zb.Bytes()[:zb.Len()/2], 0o644)
+				targets = append(targets, stopTarget{name: fd.name + "/File-on-truncated-gz", errLast: errLast,
+					run: func(v func(gItem) bool) (int, bool) { return fd.file(cut, v) }})
+			}
 			// the same input on a stream that fails part-way: stopping on (or just before) the error item
 			if in.WellFormed && len(in.Data) > 2 {
 				rr := newRand(int64(8900 + 100*fi + ii))
